@@ -109,6 +109,10 @@ type Scanner struct {
 	allowAnnotation bool
 
 	hasTrailingCharacters bool
+
+	// skipLineFeed the carriage return just read ended an inline annotation:
+	// a line feed that follows it belongs to the same line end.
+	skipLineFeed bool
 }
 
 type context struct {
@@ -230,6 +234,13 @@ func (s *Scanner) Next() (lexeme.LexEvent, bool) {
 	for s.index < s.dataSize {
 		c := s.data.Byte(s.index)
 		s.index++
+
+		if s.skipLineFeed {
+			s.skipLineFeed = false
+			if c == '\n' {
+				continue
+			}
+		}
 
 		// useful for debugging comment below 1 line for release
 		// fmt.Printf("Schema-Next->step %s %c\n", runtime.FuncForPC(reflect.ValueOf(s.step).Pointer()).Name(), c)
